@@ -23,6 +23,7 @@ Structural(e) ==
     /\ (e.empty => e.err # "none")                     \* empty labels are rejected: no eTLD+1 ...
     /\ ((e.empty /\ e.n > 1) => ~e.etld)               \* ... and not an effective TLD (the empty string itself is left open)
     /\ (e.err = "none" => e.e1 = e.ps + 1 /\ e.e1 <= e.n)
+    /\ ((~e.empty /\ e.ps \in 1..e.n) => (e.err = "none") = (e.n > e.ps))   \* an eTLD+1 exactly when a label is left over
     /\ (e.err # "none" => e.e1 = 0)
 
 Canonical(N, W, E, e) ==
